@@ -89,6 +89,24 @@ class Run(object):
         return out
 
     # ---- helpers for scenarios
+    def settle(self):
+        """Block the calling user thread until every live networking thread is idle
+        (waiting in select with nothing to read) and nothing is queued."""
+        sched = self.sched
+
+        def idle():
+            nets = [t for t in sched.threads if t.kind == 'net' and not t.finished]
+            if any(not (t.waiting_select and t.stutter >= 1) for t in nets):
+                return False
+            for sc in self.scripts:
+                if sc.session is not None and len(sc.session.s2c) and not sc.session.cli_closed:
+                    return False
+            q = getattr(self.conn, '_outgoing_packet_queue', None) if self.conn is not None else None
+            if q is not None and hasattr(q, 'real_len') and q.real_len() and nets:
+                return False
+            return True
+        sched.yield_point(blocked_on=idle)
+
     def make_connection(self, **kw):
         from minecraft.networking.connection import Connection
 
